@@ -315,7 +315,7 @@ def structural(tier, res):
     fi = find_function(EP + 'TransactionEvaluator._eval_ListComp')
     ok = any(isinstance(n, ast.Assign) and isinstance(n.value, ast.List) and not n.value.elts and
              any(isinstance(t, ast.Name) and t.id == 'result' for t in n.targets) for n in ast.walk(fi.node))
-    out.append(frames.Clause(fi.qualname + '#result_list_is_fresh', ok, 'result = [] before the recursive helper' if ok else 'result is not a fresh list'))
+    out.append(frames.Clause(fi.qualname + '#result_list_is_fresh', ok, 'result = [] before the recursive helper' if ok else 'result is not a fresh list', kind='auxiliary'))
     # MerchantEngine.parse starts from empty state (rules/variables/transforms are functions of content alone)
     fi = find_function(eng + 'parse')
     res.functions[fi.qualname] = fi.describe()
@@ -331,7 +331,7 @@ def structural(tier, res):
             continue
         break
     out.append(frames.Clause(fi.qualname + '#starts_from_empty_state', need <= seen,
-                             'parse() first resets %s' % sorted(seen) if need <= seen else 'not reset before use: %s' % sorted(need - seen)))
+                             'parse() first resets %s' % sorted(seen) if need <= seen else 'not reset before use: %s' % sorted(need - seen), kind='auxiliary'))
     return out
 
 
